@@ -429,7 +429,11 @@ RULES = {'D10': _d10_log_rule, 'D1': _d1_range_for, 'D2': _d2_brace_temp, 'D3': 
 
 def apply_rules(sl, rules):
     for r, arg in rules:
+        optional = r.endswith('?')        # 'D1?': apply where the pattern occurs, nothing to rewrite otherwise
+        r = r.rstrip('?')
         new, c = RULES[r](sl.text, arg)
+        if c == 0 and optional:
+            continue
         if c == 0:
             raise SliceError('%s: desugaring %s requested but its pattern does not occur' % (sl.name, r))
         sl.text = new
